@@ -150,7 +150,13 @@ def compare_shard(cfg, ops_p, impl_p, model_p, oc, tag):
             oc.tagcount[t] = oc.tagcount.get(t, 0) + 1
         k = iout.split(" ")[0]
         oc.outkinds[k] = oc.outkinds.get(k, 0) + 1
+        if case_failed and not ops[i].startswith("end"):
+            continue
         if case_failed:
+            # the closing judgement of a case looks at the implementation's own final observation and does
+            # not depend on the recorder: it is evaluated even after an earlier difference
+            if sout != "*" and not spec_admits(sout, iout):
+                oc.spec_viol.append((tag, start, i, iout, sout))
             continue
         if sout != "*" and not spec_admits(sout, iout):
             oc.spec_viol.append((tag, start, i, iout, sout))
